@@ -1,4 +1,4 @@
 CONSTANTS Mode = "b58"  MaxLen = 6  MaxText = 5  LongZ = 12  LongN = 90  NPay = 0  Rich = TRUE  NPat = 2  NRnd = 0
 SPECIFICATION Spec
-INVARIANTS Guarantee ValidBasesDecode
+INVARIANTS Guarantee ValidBasesDecode LongFormAgrees
 CHECK_DEADLOCK FALSE
